@@ -59,7 +59,7 @@ func deleteFromMap(node *CandidateNode, childPath interface{}) {
 		key := contents[index]
 		value := contents[index+1]
 
-		shouldDelete := key.Value == childPath
+		shouldDelete := key.Value == fmt.Sprintf("%v", childPath)
 
 		log.Debugf("shouldDelete %v? %v == %v = %v", NodeToString(value), key.Value, childPath, shouldDelete)
 
